@@ -37,28 +37,52 @@ func (p *Pool) VerifBucketSizes() []int {
 }
 
 // VerifDrain removes every buffer from bucket idx and returns them in the
-// order Get would have handed them out.
-func (p *Pool) VerifDrain(idx int) []*[]byte {
+// order Get would have handed them out; privEmpty tells whether the private
+// slot was empty (the first buffer then came from the shared stack).
+func (p *Pool) VerifDrain(idx int) (bufs []*[]byte, privEmpty bool) {
 	sp := p.pools[idx]
 	old := sp.pool.New
 	fresh := false
 	sp.pool.New = func() interface{} { fresh = true; return nil }
-	var out []*[]byte
+	defer func() { sp.pool.New = old }()
+	// a sentinel lands in the private slot exactly if that slot is empty
+	sentinel := makeSlicePointer(0)
+	sp.pool.Put(sentinel)
+	first := sp.pool.Get().(*[]byte)
+	if first == sentinel {
+		privEmpty = true
+	} else {
+		bufs = append(bufs, first)
+		if again := sp.pool.Get().(*[]byte); again != sentinel {
+			panic("bucketpool verif: the sentinel is not on top of the shared stack (more than one P, or a garbage collection)")
+		}
+	}
 	for {
 		x := sp.pool.Get()
 		if fresh {
 			break
 		}
-		out = append(out, x.(*[]byte))
+		bufs = append(bufs, x.(*[]byte))
 	}
-	sp.pool.New = old
-	return out
+	return bufs, privEmpty
 }
 
-// VerifRefill puts drained buffers back into the empty bucket idx so that Get
-// hands them out in the order of bufs again.
-func (p *Pool) VerifRefill(idx int, bufs []*[]byte) {
+// VerifRefill puts drained buffers back into the empty bucket idx exactly as
+// they were: Get hands them out in the order of bufs again, and the private
+// slot is empty if it was.
+func (p *Pool) VerifRefill(idx int, bufs []*[]byte, privEmpty bool) {
 	sp := p.pools[idx]
+	if privEmpty {
+		sentinel := makeSlicePointer(0)
+		sp.pool.Put(sentinel) // occupies the private slot
+		for i := len(bufs) - 1; i >= 0; i-- {
+			sp.pool.Put(bufs[i]) // shared stack, bufs[0] on top
+		}
+		if sp.pool.Get().(*[]byte) != sentinel {
+			panic("bucketpool verif: the private slot did not hold the sentinel")
+		}
+		return
+	}
 	if len(bufs) == 0 {
 		return
 	}
